@@ -431,7 +431,22 @@ def rule_disp(c, prog):
         c.violation(R, "inst|object-format", "decode_inst_chunk rejects (or no longer reads) the object format byte; service-format INST chunks must load", fi.sp, instance="inst:object-format-accepted")
     # no chunk-order state machine in Deserializer::deserialize: arms call decode_* directly
     fd = prog.fn("rbx_binary::deserializer::Deserializer::<'db>::deserialize")
-    flags = [n for n in core.walk_fn(fd) if n.get("k") == "Assign"]
+    # (a boolean that only the loop's own condition reads — `while !reached_end` — is the loop's exit, not state about
+    # which chunks have been seen)
+    cond_only = set()
+    for lp_ in core.walk_fn(fd):
+        if lp_.get("k") == "Loop":
+            for y in core.walk(lp_):
+                if y.get("k") == "If":
+                    cnd_ = core.strip(y["c"])
+                    while cnd_.get("k") in ("DropTemps", "Unary"):
+                        cnd_ = core.strip(cnd_["e"])
+                    if cnd_.get("res") == "local" and cnd_.get("ty") == "bool":
+                        reads = [z for z in core.walk_fn(fd) if z.get("k") == "Path" and z.get("lid") == cnd_["lid"]]
+                        writes = [z for z in core.walk_fn(fd) if z.get("k") == "Assign" and core.strip(z["l"]).get("lid") == cnd_["lid"]]
+                        if len(reads) - len(writes) == 1:
+                            cond_only.add(cnd_["lid"])
+    flags = [n for n in core.walk_fn(fd) if n.get("k") == "Assign" and core.strip(n["l"]).get("lid") not in cond_only]
     if not flags:
         c.ok(R, "dispatch:stateless")
     else:
